@@ -18,11 +18,17 @@ def run(tier, seed):
     n = tier_n(tier, 220, 3000)
     g = gen.Gen(seed * 7919 + 12)
     progs = [g.program({"nstrat": g.rng.choice([0, 1, 2, 2, 3]), "p_post": 0.5, "shuffle_comps": 0.5,
-                        "h": g.rng.choice(["1", "1/2", "1/4", "2", "3/8", "3/2"])}) for _ in range(n)]
+                        "h": g.rng.choice(["1", "1/2", "1/4", "2", "3/8", "3/2"]),
+                        **({"force_strain": True, "nonlinear": True, "nstrat": g.rng.choice([1, 2, 3])} if i_ % 6 == 5 else {})}) for i_ in range(n)]
     for i_, p in enumerate(progs):
         if i_ % 3 == 0 and any(o["op"] == "strat" for o in p["ops"]):
             # the Stratification objects of this model are also applied to a second model with another layout before it runs
             p["shared_strats"] = True
+        if i_ % 2 == 1:
+            # strata need not be declared alphabetically (the strain stratification's in particular): declaration order decides
+            for o_ in p["ops"]:
+                if o_["op"] == "strat" and o_["kind"] in ("strain", "plain") and len(o_["strata"]) >= 2 and o_.get("mix") is None:
+                    o_["strata"] = list(reversed(o_["strata"]))
     progs.append(dict(COLLISION))
     for p in progs:
         pv = g.params_values(small=True)
